@@ -102,7 +102,17 @@ func funcsCase(group string, r *rng.R) (line, impl string) {
 	switch group {
 	case "02":
 		a, v := funcsBig(r), funcsBig(r)
-		switch r.Intn(10) {
+		switch r.Intn(12) {
+		case 10:
+			if r.Intn(3) == 0 {
+				v = new(big.Int).Set(a)
+			}
+			return fmt.Sprintf("coinLessThan %s %s", a, v), fb(balance.Coin{Currency: cur, Amount: funcsAmt(a)}.LessThanCoin(balance.Coin{Currency: cur, Amount: funcsAmt(v)}))
+		case 11:
+			if r.Intn(3) == 0 {
+				v = new(big.Int).Set(a)
+			}
+			return fmt.Sprintf("coinLessThanEqual %s %s", a, v), fb(balance.Coin{Currency: cur, Amount: funcsAmt(a)}.LessThanEqualCoin(balance.Coin{Currency: cur, Amount: funcsAmt(v)}))
 		case 0:
 			return fmt.Sprintf("amountPlus %s %s", a, v), funcsAmt(a).Plus(*funcsAmt(v)).BigInt().String()
 		case 1:
